@@ -13,7 +13,7 @@ META = {
              "box; handle stratum: case = builder scenario JSON, non-trivial when the op has >= 2 outputs "
              "or is a container/insert scenario"),
     "required": ["monitor:int-index", "monitor:slice-index", "monitor:iter", "monitor:unknown-count",
-                 "monitor:port-eq-hash", "monitor:builder-handle", "feature:call-poly-arity",
+                 "monitor:port-eq-hash", "monitor:builder-handle", "feature:call-poly-arity", "feature:recycled-index",
                  "feature:container", "feature:insert"],
     "reach": ["hugr.hugr.node_port:Node._index", "hugr.hugr.node_port:Node._normalize_index",
               "hugr.build.dfg:DfBase.add_op"],
@@ -140,6 +140,10 @@ KINDS = ["op"] * 6 + ["call-mono", "call-poly", "call-rowpoly", "load", "nested"
 def gen_scenario(r):
     kind = r.choice(KINDS)
     sc = {"kind": kind, "k": r.randint(0, 4), "m": r.randint(0, 3)}
+    if r.random() < 0.4:
+        # the host HUGR has a freed index (deleted node with another output count) to be recycled
+        sc["recycle"] = r.choice([None, 0, 1, 2, 5, 7])
+        sc["recycle_on"] = True
     if kind == "op":
         sc["op"] = r.choice(OPS)
         sc["via"] = r.choice(VIAS)
@@ -181,6 +185,14 @@ def run_scenario(ctx, sc):
 
     kind, k, m = sc["kind"], sc["k"], sc["m"]
     B, Q = tys.Bool, tys.Qubit
+
+    def recycle(hugr):
+        if sc.get("recycle_on"):
+            ctx.feat("feature:recycled-index")
+            kw = {} if sc["recycle"] is None else {"num_outs": sc["recycle"]}
+            x = hugr.add_node(ops.Custom("tmp", tys.FunctionType([], [B] * 8)), **kw)
+            hugr.delete_node(x)
+
     if kind == "op":
         name = sc["op"]
         table = {
@@ -208,6 +220,7 @@ def run_scenario(ctx, sc):
         ins, mk, nout = table[name]
         via = sc["via"]
         d = TrackedDfg(*ins, track_inputs=True) if via == "tracked" else Dfg(*ins)
+        recycle(d.hugr)
         op = mk()
         wires = d.inputs()
         if via == "add_op":
@@ -240,11 +253,13 @@ def run_scenario(ctx, sc):
             ctx.feat("feature:call-poly-arity")
         f = mod.declare_function("callee", sig)
         main = mod.define_function("main", [B] * nin)
+        recycle(main.hugr)
         h = main.call(f, *main.inputs(), instantiation=inst, type_args=targs)
         handle_checks(ctx, h, nout, sc, kind)
         return True
     if kind == "load":
         d = Dfg()
+        recycle(d.hugr)
         v = val.Tuple(*([val.TRUE] * k))
         h = d.load(v) if m % 2 else d.load(d.add_const(v))
         handle_checks(ctx, h, 1, sc, "load")
@@ -252,6 +267,7 @@ def run_scenario(ctx, sc):
     ctx.feat("feature:container" if not kind.startswith("insert") else "feature:insert")
     outer = Dfg(*([B] * max(k, 1)), tys.Either([B], [B] * k))
     ins = outer.inputs()
+    recycle(outer.hugr)
     bwires, sumw = ins[:-1], ins[-1]
     if kind in ("nested", "insert_nested"):
         if kind == "nested":
@@ -300,6 +316,14 @@ def run(ctx):
         op = ops.Custom("c16", tys.FunctionType([], [tys.Bool] * n))
         handle = h.add_node(op, num_outs=n)
         ctx.guard("index", {"n": n}, check_index, ctx, n, handle, "add_node")
+        # a handle on a recycled index (the freed handle had another / no output count)
+        for stale in (None, 0, n + 2):
+            h2 = Hugr()
+            kw = {} if stale is None else {"num_outs": stale}
+            dead = h2.add_node(ops.Custom("dead", tys.FunctionType([], [tys.Bool] * (n + 2))), **kw)
+            h2.delete_node(dead)
+            again = h2.add_node(op, num_outs=n)
+            ctx.guard("index", {"n": n, "recycled": stale}, check_index, ctx, n, again, f"recycled({stale})")
         try:
             raw = Node(5, {}, n)
         except TypeError:
